@@ -223,6 +223,7 @@ func checkC08(c *Ctx) {
 
 	c08URL(c)
 	c08Headers(c)
+	c08HeaderState(c)
 	c08Bodies(c)
 	c08Carriers(c)
 	r.Rule("R08f", "the TS server converts URL strings to the type the TS client's request interface declares (shared with C07/R07e)", 6)
@@ -596,4 +597,125 @@ func tsServerSegmentDecode(c *Ctx, rid string) {
 		"the TS server hands a raw path segment to the handler ("+strings.TrimSpace(badExt)+"): the percent-encoded form the clients send is not the value the caller passed")
 	r.Check(early == "", rid, "TS server splits the encoded pathname (decoding happens per segment)", spos,
 		"the TS server decodes the whole pathname before splitting it ("+strings.TrimSpace(early)+"): an encoded slash (%2F) inside a path value becomes a separator, the value is cut and later variables are read from shifted segments")
+}
+
+// c08HeaderState — R08l / R08m, on the reconstructed TypeScript text of every explored variant.
+// R08l: the TS client's constructor copies the caller's defaultHeaders object (spread / Object.assign into a fresh literal)
+// before its typed helper options write into it: keeping the caller's object makes every client built from one options
+// object share — and overwrite — one header slot. R08m: the TS server's validateHeaders skips an absent header
+// unconditionally (a violation only when it is required): validating the empty string for an absent OPTIONAL header
+// rejects calls the Go server and the published contract accept.
+func c08HeaderState(c *Ctx) {
+	r := c.R
+	r.Rule("R08l", "the TS client copies the caller's defaultHeaders object before writing typed header options into it", 1)
+	r.Rule("R08m", "the TS server's validateHeaders skips an absent header whether or not it is required (only a required one is a violation)", 1)
+	if ri := c.Root(pkgTSClient, "_client.ts"); ri == nil {
+		r.Unres("R08l", "_client.ts", "", "unit root not found")
+	} else {
+		ex := c.ExploreT(ri.Fn, 4000)
+		n, bad := 0, ""
+		assign := regexp.MustCompile(`this\.defaultHeaders\s*=\s*(.*);\s*$`)
+		for _, v := range ex.Variants {
+			for _, u := range v.Units {
+				for _, l := range u.Lines {
+					t := lineText(l.Segs)
+					m := assign.FindStringSubmatch(strings.TrimSpace(t))
+					if m == nil || strings.Contains(t, "this.defaultHeaders[") {
+						continue
+					}
+					n++
+					rhs := strings.TrimSpace(m[1])
+					fresh := strings.HasPrefix(rhs, "{") || strings.HasPrefix(rhs, "Object.assign({}") || strings.HasPrefix(rhs, "structuredClone(")
+					if !fresh && bad == "" {
+						bad = rhs + " at " + c.P.Pos(l.Pos)
+					}
+				}
+			}
+		}
+		if n == 0 {
+			r.Undec("R08l", "TS client constructor: defaultHeaders", "", "no assignment of this.defaultHeaders found in any variant")
+		} else {
+			r.CheckD(bad == "", "R08l", "TS client constructor stores a copy of options.defaultHeaders", c.P.Pos(c.P.Decls[ri.Fn].Pos()),
+				"the emitted constructor keeps the caller's object (this.defaultHeaders = "+bad+") and then writes the typed header options into it: two clients built from one defaultHeaders object send each other's header values", map[string]any{"assignments": n})
+		}
+	}
+	if ri := c.Root(pkgTSServer, "_server.ts"); ri == nil {
+		r.Unres("R08m", "_server.ts", "", "unit root not found")
+	} else {
+		ex := c.ExploreT(ri.Fn, 4000)
+		n, bad := 0, ""
+		for _, v := range ex.Variants {
+			for _, u := range v.Units {
+				txt := u.Text()
+				i := strings.Index(txt, "function validateHeaders(")
+				if i < 0 {
+					continue
+				}
+				body := txt[i:]
+				if j := strings.Index(body, "\n}\n"); j > 0 {
+					body = body[:j]
+				}
+				n++
+				g := strings.Index(body, ".headers.get(")
+				if g < 0 {
+					bad = "no header lookup in validateHeaders"
+					continue
+				}
+				rest := body[g:]
+				k := strings.Index(rest, "if (")
+				if k < 0 {
+					bad = "no absence test after the header lookup"
+					continue
+				}
+				cond := rest[k+4:]
+				if e := strings.Index(cond, ") {"); e > 0 {
+					cond = cond[:e]
+				}
+				// the block of that if, by brace matching
+				open := strings.Index(rest[k:], "{")
+				depth, end := 0, -1
+				for q := k + open; q < len(rest); q++ {
+					switch rest[q] {
+					case '{':
+						depth++
+					case '}':
+						depth--
+						if depth == 0 {
+							end = q
+						}
+					}
+					if end >= 0 {
+						break
+					}
+				}
+				block := ""
+				if end > 0 {
+					block = rest[k+open+1 : end]
+				}
+				absence := regexp.MustCompile(`^\s*(!\s*\w+|\w+\s*(==|===)\s*(null|undefined))\s*$`).MatchString(cond)
+				// a `continue;` at depth 0 of the block
+				d, cont := 0, false
+				for q := 0; q < len(block); q++ {
+					switch block[q] {
+					case '{':
+						d++
+					case '}':
+						d--
+					}
+					if d == 0 && strings.HasPrefix(block[q:], "continue;") {
+						cont = true
+					}
+				}
+				if !(absence && cont) && bad == "" {
+					bad = "the test after the lookup is `if (" + strings.TrimSpace(cond) + ")` and its block " + map[bool]string{true: "continues", false: "does not continue unconditionally"}[cont]
+				}
+			}
+		}
+		if n == 0 {
+			r.OKd("R08m", "no variant emits validateHeaders (no headers declared)", "", nil)
+		} else {
+			r.CheckD(bad == "", "R08m", "TS server validateHeaders: an absent header is skipped, required or not", c.P.Pos(c.P.Decls[ri.Fn].Pos()),
+				"the emitted validateHeaders does not skip an absent header unconditionally ("+bad+"): an OPTIONAL header the caller omits is validated as the empty string, which every typed or formatted header rejects — the TS server answers 400 to calls the Go server and the OpenAPI contract accept", map[string]any{"variants_with_validateHeaders": n})
+		}
+	}
 }
